@@ -170,6 +170,27 @@ ARBITRARY = 6
 PARAM_STATES = 5
 
 
+def handmade_actions(sc):
+    """action objects built by hand rather than taken from the action space - `step` and `generative_step` accept any
+    `Action`: required access NONE or ROOT instead of the USER every listed action carries, on the first and the last
+    host (the properties quantify over every action, not over the listed ones)"""
+    from nasim.envs.utils import AccessLevel
+    out = []
+    addrs = list(sc.hosts)
+    for t in {addrs[0], addrs[-1]}:
+        out.append(ProcessScan(t, sc.process_scan_cost, req_access=AccessLevel.NONE))
+        out.append(SubnetScan(t, sc.subnet_scan_cost, req_access=AccessLevel.NONE))
+        out.append(ServiceScan(t, sc.service_scan_cost, req_access=AccessLevel.ROOT))
+        out.append(OSScan(t, sc.os_scan_cost, req_access=AccessLevel.NONE))
+        for name, d in list(sc.exploits.items())[:1]:
+            out.append(Exploit(name, t, req_access=AccessLevel.ROOT, **d))
+            out.append(Exploit(name, t, req_access=AccessLevel.NONE, **d))
+        for name, d in list(sc.privescs.items())[:1]:
+            out.append(PrivilegeEscalation(name, t, req_access=AccessLevel.NONE, **d))
+            out.append(PrivilegeEscalation(name, t, req_access=AccessLevel.ROOT, **d))
+    return out
+
+
 def explore(sc, max_states, res):
     """BFS through generative_step; returns (queries, impl records, states)"""
     envF = NASimEnv(sc, fully_obs=True, flat_actions=True, flat_obs=False)
@@ -177,7 +198,7 @@ def explore(sc, max_states, res):
     s0 = envF.current_state
     seen = {tuple(C.dyn_of(envF, s0)): s0}
     queue = collections.deque([s0])
-    acts = list(envF.action_space.actions) + [NoOp()]
+    acts = list(envF.action_space.actions) + [NoOp()] + handmade_actions(sc)
     toks = [C.def_tokens(sc, a) for a in acts]           # the actions as the scenario defines them
     defprob = [float(C.Fraction(t[4])) if not isinstance(t[4], float) else t[4] for t in toks]
     queries, records, meta = [], [], []
@@ -255,7 +276,8 @@ def explore(sc, max_states, res):
     # transition the model's step of the documented action does not make - judged by the same predicates C01..C08
     envFV = NASimEnv(sc, fully_obs=True, flat_actions=False, flat_obs=False)
     envPV = NASimEnv(sc, fully_obs=False, flat_actions=False, flat_obs=True)
-    vecs = [param_vector(sc, a) for a in acts]
+    n_listed = len(envF.action_space.actions)             # only listed actions have a documenting vector
+    vecs = [param_vector(sc, a) if i < n_listed else None for i, a in enumerate(acts)]
     pool = list(seen.values())
     sample = pool[:2] + pool[-PARAM_STATES:] + [st]           # earliest, deepest, and the last arbitrary state
     done_keys = set()
